@@ -43,10 +43,10 @@ def mon_migrated(sc, steps, final):
         first = recs[0]["calls"]
         adopted = {c["name"] for c in first if c["verb"] == "patch" and c["res"] == "controllerrevisions" and not c.get("err")}
         synced = {c["name"] for c in first if c["verb"] == "update" and c["res"] == "controllerrevisions" and not c.get("err")}
-        for n in revs:
-            if n not in adopted:
+        for n, r in revs.items():
+            if n not in adopted and r["owner"] is None:
                 bad.append("marked revision %s was not adopted by the first reconcile" % n)
-            if n not in synced:
+            if n not in synced and not r["match"]:
                 bad.append("marked revision %s was not label-synced by the first reconcile" % n)
     if sc.get("complete") and len(recs) >= 2 and recs[0]["result"] == "ok" and recs[1]["result"] == "ok":
         w = [c for c in recs[1]["calls"] if c["verb"] not in ("list", "get")]
@@ -101,6 +101,13 @@ def run(ctx, depth):
                     r["owner"] = dict(rc.STALE)
                 for p in w["pods"]:
                     p["owner"] = dict(rc.STALE)
+        elif ctx.rng.random() < 0.25 and len(sc["api"]["revs"]) >= 2:
+            # an earlier reconcile was interrupted in the middle of the label sync: the oldest revision already carries the selector
+            # labels again (and may be adopted), the others are still found by their marker only
+            r0 = sc["api"]["revs"][0]
+            r0["match"] = True
+            if ctx.rng.random() < 0.5:
+                r0["owner"] = dict(rc.ME)
         sc["ops"] = [{"op": "reconcile"}, {"op": "refresh", "what": "all"}, {"op": "reconcile"}]
         if sc.get("pre_gc"):
             # ... then the garbage collector orphans the dependents of the built-in set, and the migration goes on
